@@ -122,4 +122,86 @@ theorem evLt_asymm (a b : Ev) : evLt a b = true → evLt b a = false := by
 theorem evLt_trans (a b c : Ev) : evLt b a = false → evLt c b = false → evLt c a = false := by
   unfold evLt; simp; omega
 
+/-! ### the declarative reading (`osvDecl`) of the OSV evaluation loop -/
+
+def closes (q : Nat) (c : Ev) : Bool := (c.k = .fixed && c.v ≤ q) || (c.k = .last && c.v < q)
+
+/-- `osvDecl` with its two quantifiers over (possibly) different lists -/
+def declOn (all : List Ev) (q : Nat) (l : List Ev) : Bool :=
+  l.any fun i => i.k = .intro && i.v ≤ q && !(all.any fun c => i.v < c.v && closes q c)
+
+theorem osvDecl_eq (es : List Ev) (q : Nat) : osvDecl es q = declOn es q es := by
+  unfold osvDecl declOn closes; rfl
+
+/-- strictly increasing versions -/
+def Incr : Option Nat → List Ev → Prop
+  | _, [] => True
+  | lo, e :: es => (match lo with | none => True | some l => l < e.v) ∧ Incr (some e.v) es
+
+theorem incr_of_WFfrom : ∀ (ei : Bool) (lo : Option Nat) (es : List Ev), WFfrom ei lo es = true → Incr lo es
+  | _, _, [], _ => trivial
+  | ei, lo, e :: es, h => by
+    simp only [WFfrom, Bool.and_eq_true] at h
+    refine ⟨?_, incr_of_WFfrom (!ei) (some e.v) es h.2⟩
+    cases lo with
+    | none => trivial
+    | some l => simpa using h.1.1
+
+theorem incr_lb : ∀ (lo : Nat) (es : List Ev), Incr (some lo) es → ∀ c ∈ es, lo < c.v
+  | _, [], _, c, hc => by simp at hc
+  | lo, e :: es, h, c, hc => by
+    obtain ⟨h1, h2⟩ := h
+    simp only [] at h1
+    rcases List.mem_cons.mp hc with rfl | hc
+    · exact h1
+    · have := incr_lb e.v es h2 c hc; omega
+
+theorem any_congr_mem {α : Type} : ∀ (l : List α) (f g : α → Bool), (∀ x ∈ l, f x = g x) → l.any f = l.any g
+  | [], _, _, _ => rfl
+  | x :: xs, f, g, h => by
+    rw [List.any_cons, List.any_cons, h x (by simp), any_congr_mem xs f g (fun y hy => h y (by simp [hy]))]
+
+/-- the fold over an increasing list, from any accumulated state -/
+theorem fold_eq_decl (q : Nat) : ∀ (lo : Option Nat) (es : List Ev) (acc : Bool), Incr lo es →
+    es.foldl (step q) acc = (declOn es q es || (acc && !(es.any (closes q))))
+  | _, [], acc, _ => by simp [declOn]
+  | lo, e :: es, acc, h => by
+    obtain ⟨_, h2⟩ := h
+    have hlb := incr_lb e.v es h2
+    have ih := fold_eq_decl q (some e.v) es (step q acc e) h2
+    rw [List.foldl_cons, ih]
+    -- decompose the declarative reading of `e :: es`
+    have hself : (e.v < e.v) = False := by simp
+    have hd : declOn (e :: es) q (e :: es) =
+        ((e.k = .intro && e.v ≤ q && !(es.any (closes q))) || declOn es q es) := by
+      unfold declOn
+      rw [List.any_cons]
+      congr 1
+      · -- for i = e: the closing event is in `es`, all of which are above `e`
+        congr 1
+        congr 1
+        rw [List.any_cons]
+        simp only [Nat.lt_irrefl, decide_false, Bool.false_and, Bool.false_or]
+        apply any_congr_mem
+        intro c hc
+        simp [hlb c hc]
+      · -- for i ∈ es: `e` is below `i`, so it cannot close
+        apply any_congr_mem
+        intro i hi
+        rw [List.any_cons]
+        have : ¬ i.v < e.v := by have := hlb i hi; omega
+        simp [this]
+    rw [hd, List.any_cons]
+    cases hk : e.k <;> simp only [step, hk, closes] <;>
+      by_cases hq : e.v ≤ q <;> by_cases hq' : e.v < q <;>
+      simp_all <;> (try omega) <;> (cases acc <;> cases declOn es q es <;> cases es.any (closes q) <;> simp_all)
+
+theorem declOn_perm (q : Nat) (a b : List Ev) (h : a.Perm b) : declOn a q a = declOn b q b := by
+  unfold declOn
+  have h1 : ∀ i : Ev, (a.any fun c => i.v < c.v && closes q c) = (b.any fun c => i.v < c.v && closes q c) :=
+    fun i => h.any_eq
+  simp only [h1]
+  exact h.any_eq
+
+
 end Scalibr.Vulns
